@@ -471,7 +471,8 @@ def build(sc):
     delay = SeqDelay(sc['delays']) if sc.get('delays') else None
     STATE.clear()
     STATE.update(batch=(sc['alg']['kind'] in ('batch', 'reserve_only')), parts=sc['alg'].get('parts', 1), sim=None,
-                 obs_index={f'o{i + 1}': i for i in range(nobs)}, names=sc.get('names'))
+                 obs_index={f'o{i + 1}': i for i in range(nobs)}, names=sc.get('names'),
+                 shipped_alg=(sc['alg']['kind'] in ('batch', 'queue', 'dynamic', 'greedy')))
     gl = sc['graphs'] if len(sc['graphs']) > 1 else sc['graphs'] * nobs
     if sc['alg']['kind'] in ('dynamic', 'greedy') or sc.get('static'):
         model = StubStatic(graphs, sc['assign'], sc['ests'])
@@ -530,6 +531,10 @@ def start_with_cap(sim, mon, cap):
                 tb = tb.tb_next
             e = e.__cause__ or e.__context__
         mon.tag(f'C05/raises/{type(ex).__name__}@{site}')
+        if STATE.get('shipped_alg'):
+            # a run aborted by an exception has not executed everything once and does not return at all; under a user
+            # algorithm an error may be the legitimate rejection of an illegal proposal (C01), so only shipped ones count
+            mon.tag(f'C04/run-aborted-by-exception/{type(ex).__name__}@{site}')
         return 'raised'
     return 'finished'
 
@@ -624,8 +629,18 @@ def final_oracles(sc, res):
         mon.tag('C04/task-table-ids-differ')
     # ---- C03 precedence + exact start, C06 runtime, C15 flag, C17 planned machine
     byid = {t.id: t for t in cl._tasks['finished']}
+
+    def graph_preds(t):
+        """predecessor task ids and edge volumes of task t read from the SCENARIO graph (not from the plan under test)"""
+        oname = t.id.split('_')[0]
+        g = gl[STATE['obs_index'].get(oname, 0)]
+        stem = t.id[:len(t.id) - len(str(t.graph_id))]
+        return {stem + str(i): v for (i, j, v) in g.get('edges', []) if j == t.graph_id}
+
     for t in byid.values():
-        for p in (t.pred or []):
+        if '_ingest_t' in t.id:
+            continue
+        for p in graph_preds(t):
             if p not in byid:
                 mon.tag('C03/predecessor-never-ran')
             elif t.ast < byid[p].aft:
@@ -635,13 +650,14 @@ def final_oracles(sc, res):
         if a['ingest'] or t.aft < 0:
             continue
         m = a['machine']
-        same = [p for p in (t.pred or []) if p in byid and mon.machine_of.get(p) == m.id]
-        cross = [p for p in (t.pred or []) if p in byid and mon.machine_of.get(p) != m.id]
+        gp = graph_preds(t)
+        same = [p for p in gp if p in byid and mon.machine_of.get(p) == m.id]
+        cross = [p for p in gp if p in byid and mon.machine_of.get(p) != m.id]
         if sorted(x.id for x in a['preds']) != sorted(cross):
             mon.tag('C03/transfer-wait-for-wrong-predecessors')
         want = a['t']
         for p in cross:
-            arr = byid[p].aft + t.io[p] / m.bandwidth
+            arr = byid[p].aft + gp[p] / m.bandwidth
             if arr > want:
                 want = arr
         if abs(t.ast - want) > 1e-9:          # fractional transfer times: now + (arrival - now) may differ from arrival by an ulp
